@@ -1536,3 +1536,137 @@ func (c *Ctx) NotificationAlwaysStored(ob *core.Obligation, upd *ssa.Function) {
 		ob.Unknown("notify-stored:none", "-", "no call of the document update found")
 	}
 }
+
+// ---------- account metadata is written as the value's own text ----------
+
+// AccountMetaIsValueText: what a script writes into the account metadata handed back to the
+// caller is, for every value, the result of the value's String() method - the text that the
+// variable readers parse back. (The field is found by role: the one copied into the
+// AccountsMetadata of the execution result.)
+func (c *Ctx) AccountMetaIsValueText(ob *core.Obligation) {
+	var outF *types.Var
+	for _, fn := range c.P.ModuleFunctions() {
+		if relOfFn(fn) != "internal/interpreter" {
+			continue
+		}
+		for _, b := range fn.Blocks {
+			for _, in := range b.Instrs {
+				st, ok := in.(*ssa.Store)
+				if !ok {
+					continue
+				}
+				fa, ok := st.Addr.(*ssa.FieldAddr)
+				if !ok || ownerName(fa) != "ExecutionResult" || core.FieldOf(fa) == nil || core.FieldOf(fa).Name() != "AccountsMetadata" {
+					continue
+				}
+				if ld, ok := st.Val.(*ssa.UnOp); ok && ld.Op == token.MUL {
+					if f := core.FieldOf(ld.X); f != nil {
+						outF = f
+					}
+				}
+			}
+		}
+	}
+	if outF == nil {
+		ob.Unknown("meta-text:field", "-", "the state field returned as the result's account metadata was not found")
+		return
+	}
+	n := 0
+	for _, fn := range c.P.ModuleFunctions() {
+		if relOfFn(fn) != "internal/interpreter" {
+			continue
+		}
+		for _, b := range fn.Blocks {
+			for _, in := range b.Instrs {
+				mu, ok := in.(*ssa.MapUpdate)
+				if !ok {
+					continue
+				}
+				if bt, ok := mu.Value.Type().Underlying().(*types.Basic); !ok || bt.Kind() != types.String {
+					continue
+				}
+				// the inner map comes from the output field (a lookup or a default-get on it, or a
+				// fresh map that is put into it)
+				from := innerMapOf(mu.Map, outF, 0)
+				if !from {
+					continue
+				}
+				n++
+				c.Touch(fn)
+				key := "meta-text:" + core.SSAName(fn)
+				v := resolveLocal(mu.Value)
+				if call, ok := v.(*ssa.Call); ok && call.Call.IsInvoke() && call.Call.Method.Name() == "String" && core.IsNamedType(call.Call.Value.Type(), core.ModPath+"/internal/interpreter", "Value") {
+					ob.Pass(key, c.P.Pos(mu.Pos()), "the text stored is value.String()")
+				} else {
+					ob.Fail(key, c.P.Pos(mu.Pos()), "the text written to the account metadata is not the value's String(): "+core.ShortVal(v)+"; a later script reading it back through a variable of the same type gets another value (or an error)")
+				}
+			}
+		}
+	}
+	if n == 0 {
+		ob.Unknown("meta-text:none", "-", "no write of a text into the result's account metadata found")
+	}
+}
+
+// innerMapOf: m is an entry of the map held by field f: looked up in it, obtained by a
+// default-get helper given it, or a fresh map stored into it (through phis).
+func innerMapOf(m ssa.Value, f *types.Var, d int) bool {
+	if d > 4 {
+		return false
+	}
+	isF := func(v ssa.Value) bool {
+		ld, ok := resolveLocal(v).(*ssa.UnOp)
+		return ok && ld.Op == token.MUL && core.FieldOf(ld.X) == f
+	}
+	switch x := resolveLocal(m).(type) {
+	case *ssa.Phi:
+		for _, e := range x.Edges {
+			if !innerMapOf(e, f, d+1) {
+				return false
+			}
+		}
+		return len(x.Edges) > 0
+	case *ssa.Call:
+		for _, a := range x.Call.Args {
+			if isF(a) {
+				return true
+			}
+		}
+	case *ssa.Lookup:
+		return isF(x.X)
+	case *ssa.Extract:
+		if lk, ok := x.Tuple.(*ssa.Lookup); ok {
+			return isF(lk.X)
+		}
+	case *ssa.ChangeType:
+		return innerMapOf(x.X, f, d+1) || storedInto(x, f)
+	case *ssa.MakeMap:
+		return storedInto(x, f)
+	}
+	return false
+}
+
+func storedInto(v ssa.Value, f *types.Var) bool {
+	if v.Referrers() == nil {
+		return false
+	}
+	for _, r := range *v.Referrers() {
+		switch y := r.(type) {
+		case *ssa.MapUpdate:
+			if y.Value == v {
+				if ld, ok := resolveLocal(y.Map).(*ssa.UnOp); ok && core.FieldOf(ld.X) == f {
+					return true
+				}
+			}
+		case *ssa.ChangeType:
+			if storedInto(y, f) {
+				return true
+			}
+		case *ssa.Phi:
+			if storedInto(y, f) {
+				return true
+			}
+		}
+	}
+	return false
+}
